@@ -161,10 +161,35 @@ func (s *Sched) Digest() string {
 	return fmt.Sprintf("%016x", s.hash)
 }
 
+// Free selects the free-running mode of the -race binary: no scheduler;
+// Yield perturbs the real schedule with seeded Gosched calls and short sleeps.
+var Free atomic.Bool
+
+var freeState atomic.Uint64
+
+func freePerturb() {
+	x := freeState.Add(0x9e3779b97f4a7c15)
+	x ^= x >> 29
+	x *= 0xbf58476d1ce4e5b9
+	x ^= x >> 32
+	switch x % 16 {
+	case 0, 1, 2, 3, 4, 5:
+		runtime.Gosched()
+	case 6:
+		time.Sleep(time.Duration(x>>8%50) * time.Microsecond)
+	}
+}
+
+// SeedFree seeds the perturbation of the free-running mode.
+func SeedFree(seed uint64) { freeState.Store(seed) }
+
 // Yield is a scheduling point. It is a no-op unless a scheduler is running.
 func Yield(site string) {
 	s := cur.Load()
 	if s == nil || !s.running.Load() {
+		if Free.Load() {
+			freePerturb()
+		}
 		return
 	}
 	s.yield(site)
